@@ -106,4 +106,96 @@ def run(prog):
                                 "the reduction of the enumeration is not the returned value"))
     if n < 1:
         raise CheckerError("EE: no loop over AssignmentIter found (expected Cnf::wmc)")
+    out += counter(prog)
     return out
+
+
+def counter(prog):
+    """The enumeration itself: AssignmentIter::next is a binary counter.  First state all-false over num_vars
+    positions; the step is a ripple-carry increment (digit' = digit xor carry, carry' = digit and carry, carry-in
+    true), decided by truth table over (digit, carry) with the known-bits evaluator of LP; None exactly on carry-out."""
+    from . import lp
+    from .base import strip
+    nx = [f for f in prog.lib_fns if f.name == "next" and f.impl_self and "AssignmentIter" in f.impl_self and f.kind != "Closure"]
+    if len(nx) != 1:
+        return [inst("EE", "repr::cnf::AssignmentIter::next:counter", UNDECIDED, None, None, "AssignmentIter::next not found")]
+    fn = nx[0]
+    te = fn.terms
+    key = "%s:counter" % fn.npath
+    errs = []
+    kids = {k.npath: k for k in prog.children(fn)}
+
+    def closure_of(t):
+        t = strip(t)
+        return kids.get(t[2]) if isinstance(t, tuple) and t and t[0] == "agg" and t[1] == "closure" else None
+    # (a) first state
+    firsts = [v for (_bb, pl, v, _l) in te.stores if "cur" in show(pl) and any(mir.is_call(x, "collect") or mir.is_call(x, "from_elem") for x in mir.subterms(v))]
+    ok_first = False
+    for v in firsts:
+        for x in mir.subterms(v):
+            if mir.is_call(x, "from_elem") and strip(x[2][0]) == ("const", "bool", "0") and "num_vars" in show(x[2][1]):
+                ok_first = True
+            if mir.is_call(x, "map") and len(x[2]) == 2:
+                rng, clo = strip(x[2][0]), closure_of(x[2][1])
+                if clo is not None and strip(clo.terms.ret) == ("const", "bool", "0") and "num_vars" in show(rng) and \
+                        rng[0] == "agg" and strip(rng[4][0]) == ("const", "usize", "0"):
+                    ok_first = True
+    if not firsts:
+        errs.append("?the first state (an all-false vector over num_vars positions) was not found")
+    elif not ok_first:
+        errs.append("the first assignment is %s, not the all-false vector over 0..num_vars: the enumeration does not start "
+                    "at (or does not have the width of) the assignment space" % show(firsts[0])[:70])
+    # (b) the step
+    folds = [x for x in mir.subterms(te.ret) if mir.is_call(x, "fold") and len(x[2]) == 3 and closure_of(x[2][2]) is not None]
+    folds += [x for (_bb, _pl, v, _l) in te.stores for x in mir.subterms(v) if mir.is_call(x, "fold") and len(x[2]) == 3 and closure_of(x[2][2]) is not None]
+    if not folds:
+        errs.append("?the increment is not a fold over the current assignment")
+    else:
+        f = folds[0]
+        seed = strip(f[2][1])
+        clo = closure_of(f[2][2])
+        cin = strip(seed[4][1]) if seed[0] == "agg" and seed[1] == "tuple" and len(seed[4]) == 2 else None
+        if cin is None:
+            errs.append("?the fold's seed is not a (digits, carry) pair")
+        elif cin != ("const", "bool", "1"):
+            errs.append("the increment starts with carry-in %s: the counter does not advance by one" % show(cin))
+        r = strip(clo.terms.ret)
+        push = [c for c in clo.terms.calls if c.callee.name == "push" and len(c.args) == 2]
+        if not (r[0] == "agg" and r[1] == "tuple" and len(r[4]) == 2 and len(push) == 1 and clo.argc == 3):
+            errs.append("?the fold's step is not `push one digit, return (digits, carry)`")
+        else:
+            ev = lp.Ev(prog)
+            A, C = ("atom", ("bit", "digit", 0)), ("atom", ("bit", "carry", 0))
+            env = {2: ("tuple", [("struct", {}), ("bool", C)]), 3: ("bool", A)}
+            try:
+                digit = ev.ev(push[0].args[1], clo, env)
+                carry = ev.ev(r[4][1], clo, env)
+                same_d, _ = lp.f_same(digit[1], lp.f_not(("iff", A, C)))
+                same_c, _ = lp.f_same(carry[1], ("and", A, C))
+                if not same_d:
+                    errs.append("the new digit is %s, not digit xor carry: the sequence is not the binary count, so assignments "
+                                "are repeated or skipped" % show(push[0].args[1])[:50])
+                if not same_c:
+                    errs.append("the carry out of a digit is %s, not digit and carry: the sequence is not the binary count, so "
+                                "assignments are repeated or skipped" % show(r[4][1])[:60])
+            except lp.NotEval as e:
+                errs.append("?the step is not interpretable as Boolean functions of (digit, carry): %s" % e)
+        # (c) exhaustion: None exactly when the carry leaves the last digit
+        rr = strip(te.ret)
+        found = False
+        for g in mir.subterms(rr):
+            g = strip(g)
+            if g[0] == "gamma" and strip(strip(g[1])) and "fold" in show(g[1]) and show(g[1]).endswith(".1"):
+                found = True
+                for lab, v in g[2]:
+                    is_none = show(strip(v)).startswith("None")
+                    carry_true = lab != "0"
+                    if is_none != carry_true:
+                        errs.append("the iterator ends (%s) when the carry-out is %s: it stops before all assignments are "
+                                    "produced or never stops" % (show(strip(v))[:20], "set" if carry_true else "clear"))
+        if not found:
+            errs.append("?the end of the enumeration is not a test of the fold's carry-out")
+    bad = [e for e in errs if not e.startswith("?")]
+    return [inst("EE", key, VIOLATION if bad else (UNDECIDED if errs else OK), fn, None,
+                 "; ".join(errs) if errs else "all-false start over 0..num_vars; step = ripple-carry increment (digit xor carry, digit and "
+                 "carry, carry-in 1) by truth table; None exactly on carry-out")]
